@@ -98,7 +98,7 @@ OPNAMES = list(OPS)
 KINDS = ['PullInstancesWithPath', 'PullInstancePaths', 'PullInstances']
 KIND_REPRESENTATIVES = ['OpenEnumerateInstances', 'OpenAssociatorInstancePaths', 'OpenQueryInstances']
 BOGUS = ['no-such-context', '']
-MAX_STATES_PER_BFS = 50000        # safety net for broken implementations (largest graph on the
+MAX_STATES_PER_BFS = 20000        # safety net for broken implementations (largest graph on the
                                   # unchanged tree: about 3 000 states); hitting it is reported as a cap
 SAMPLE_PLAN = ['OpenEnumerateInstances', 'OpenAssociatorInstancePaths']
 QUERY = 'SELECT * FROM TST_A'
@@ -229,7 +229,10 @@ def canon(w):
     ses = []
     for s in w.sessions:
         ses.append((s.op, s.status, s.ctx[0] if s.ctx else None, len(s.ref),
-                    tuple(sorted(s.got)) if s.status == 'open' else ()))
+                    # the oracle's future only depends on WHICH objects were delivered (a repeated
+                    # delivery is reported when it happens); a set keeps the graph finite even for
+                    # an implementation that delivers the same object for ever
+                    tuple(sorted(set(s.got))) if s.status == 'open' else ()))
     repo = w.conn.cimrepository
     stores = tuple((ns, repo.get_instance_store(ns).len(), repo.get_class_store(ns).len(),
                     repo.get_qualifier_store(ns).len()) for ns in sorted(repo.namespaces))
